@@ -310,7 +310,15 @@ func (n *simNet) step() {
 				sign = s
 			}
 			cls := strings.Split(n.chanmodes, ",")
-			switch r.Intn(6) {
+			pick := r.Intn(6)
+			// a network may announce an EMPTY class ("beI,k,,imnpst"): nothing to draw from it
+			if (pick == 0 && cls[3] == "") || (pick == 2 && cls[2] == "") || (pick == 3 && cls[0] == "") {
+				pick = 5
+			}
+			if pick == 1 && !strings.Contains(cls[1], "k") {
+				pick = 5
+			}
+			switch pick {
 			case 0: // D
 				l := cls[3][r.Intn(len(cls[3]))]
 				flags.WriteByte(l)
@@ -427,6 +435,9 @@ func simHistory(r *RNG, length int) []string {
 	n.chanmodes = "beI,k,l,imnpst"
 	if n.prefixes == "(ov)@+" && r.Chance(40) {
 		n.chanmodes = "eIbq,k,flj,CFLMPQScgimnprstuz" // a network where 'q' is a list mode (quiet), with more class C/D letters
+	} else if r.Chance(25) {
+		// a class may be empty: the classes are POSITIONAL (A,B,C,D), an empty one must not shift the later ones
+		n.chanmodes = r.Pick([]string{"beI,k,,imnpst", "beI,,l,imnpst", ",k,l,imnpst", "b,k,l,"})
 	}
 	n.extJoin, n.uhNames = r.Bool(), r.Bool()
 	if r.Chance(30) {
@@ -435,6 +446,9 @@ func simHistory(r *RNG, length int) []string {
 		delete(n.users, "me")
 		u.nick = "Me2"
 		n.users["me2"] = u
+	}
+	if r.Chance(40) {
+		n.emit(":srv NOTICE * :*** Looking up your hostname...")
 	}
 	n.emit(":srv 001 %s :Welcome", n.me)
 	if r.Chance(70) {
@@ -624,6 +638,7 @@ var c04Corpus = [][]string{
 }
 
 func runC04(c *Ctx) {
+	runModeSyntax(c)
 	r := c.R
 	r.Rule = "random walks of a simulated network (5 other users, up to 3 channels, RFC1459-case-variant spellings in parameters, nick changes incl. case-only and of the client itself, multi-prefix NAMES with and without userhost-in-names split over several 353 lines, " +
 		"extended-join, 352/354 WHO replies, MODE strings mixing +/- over all four CHANMODES classes and PREFIX modes, TOPIC/AWAY/ACCOUNT/CHGHOST/account-tag traffic, 001 renaming the client, 004/005/MOTD): the real client vs its model (lines, dumps) " +
